@@ -157,7 +157,7 @@ func checkC20(c *Ctx) {
 					continue
 				}
 				if x.fam == "sentence" && x.t != nil && x.t.Shape() != ms {
-					c.internal("generator/model disagree on a generated sentence: " + x.s + " :: " + x.t.Shape() + " vs " + ms)
+					c.genStale("generator/model disagree on a generated sentence: " + x.s + " :: " + x.t.Shape() + " vs " + ms)
 				}
 				c.count("accepted")
 				if strings.Count(g.Tokens, " ") >= 1 {
@@ -165,7 +165,7 @@ func checkC20(c *Ctx) {
 				}
 			} else {
 				if x.fam == "sentence" {
-					c.internal("generated sentence rejected by the model: " + x.s + " -> " + parA)
+					c.genStale("generated sentence rejected by the model: " + x.s + " -> " + parA)
 				}
 				c.count("rejected")
 				if mLexErr {
@@ -346,7 +346,7 @@ func checkC15(c *Ctx) {
 		for k, vs := range vtexts {
 			c.Res.Evaluations++
 			if ans[k] != "OK "+vts[k].Shape() {
-				c.internal("model does not read a respelled variant as the tree it was rendered from: " + vs + " -> " + ans[k])
+				c.genStale("model does not read a respelled variant as the tree it was rendered from: " + vs + " -> " + ans[k])
 				continue
 			}
 			if vs != canon {
